@@ -260,6 +260,8 @@ DIRECTED = [
     "handlers = [lambda *args, **kwargs: (args, kwargs), lambda first, second, /: first + second, lambda value, *rest, flag=None: (value, rest, flag)]\n",
     "def f():\n    from django.db.models import Q\n    from re import I, M\n    alpha=beta=gamma=delta=epsilon=zeta=eta=theta=iota=kappa=lam=mu=nu=xi=omicron=pi=rho=sigma=1\n    return [alpha,beta,gamma,delta,epsilon,zeta,eta,theta,iota,kappa,lam,mu,nu,xi,omicron,pi,rho,sigma,Q,I,M,alpha,beta,gamma,delta,epsilon,zeta,eta,theta,iota,kappa,lam,mu,nu,xi,omicron,pi,rho,sigma]\n",
     "x = 1\ndef f(x):\n    class C:\n        x = x\n    return C.x\nprint(f(10))\n",
+    "'''shared documentation text'''\nclass Transport:\n    '''shared documentation text'''\n    async def connect(self, host):\n        '''open the connection to the host'''\n        return host\n    async def reconnect(self, host):\n        '''open the connection to the host'''\n        return host\n    def close(self):\n        '''shared documentation text'''\n        return 'shared documentation text', 'open the connection to the host'\nasync def ping():\n    '''open the connection to the host'''\ndef pong():\n    '''shared documentation text'''\nprint(Transport.connect.__doc__, Transport.close.__doc__, ping.__doc__, pong.__doc__, __doc__)\n",
+    "def outer():\n    'repeated docstring value'\n    def inner():\n        'repeated docstring value'\n        return 'repeated docstring value'\n    async def ainner():\n        'repeated docstring value'\n    class K:\n        'repeated docstring value'\n    return inner.__doc__, ainner.__doc__, K.__doc__, inner()\nprint(outer(), outer.__doc__)\n",
     "value = 'module'\ndef f(value):\n    class C:\n        global value\n        seen = value\n        items = [item for item in value]\n    return C.seen, C.items, value\nprint(f('param'))\n",
     'counter = 10\ndef outer(counter):\n    def middle():\n        class Holder:\n            global counter\n            snapshot = counter + 1\n            def method(self):\n                return counter\n        return Holder.snapshot, Holder().method(), counter\n    return middle()\nprint(outer(1))\n',
     'total = 5\ndef g(total):\n    class K:\n        global total\n        total = total + 1\n    return total\nprint(g(100), total)\n',
